@@ -139,7 +139,7 @@ Denote(text) == LET g == GEnd(FoldLeft(GStep, GInit, text)) IN
 \* ---- permissive recogniser: does the text become valid when the LISTED extensions are allowed,
 \* and which of them does it use?  p = [mode, stack (kinds), sub, bare, dec, ext, bad, aftercomma]
 \*   sub: "" | "str" | "bare" | "c0" ('/' seen) | "cblock" | "cstar" | "cline"
-PInit == [mode |-> "val", stack |-> <<>>, sub |-> "", bare |-> <<>>, dec |-> DecInit, iskey |-> FALSE, ext |-> {}, bad |-> FALSE, ac |-> FALSE]
+PInit == [mode |-> "val", stack |-> <<>>, sub |-> "", bare |-> <<>>, dec |-> DecInit, iskey |-> FALSE, ext |-> {}, bad |-> FALSE, ac |-> FALSE, maxd |-> 0]
 PBad(p) == [p EXCEPT !.bad = TRUE]
 PDeliver(p) == IF p.stack = <<>> THEN [p EXCEPT !.mode = "done"] ELSE [p EXCEPT !.mode = "after"]
 PClose(p, kind) == IF p.stack = <<>> \/ p.stack[Len(p.stack)] # kind THEN PBad(p)
@@ -153,13 +153,15 @@ PPlain(p, c) ==
     ELSE IF p.mode = "done" THEN [p EXCEPT !.ext = p.ext \cup {"trailing_chars"}, !.mode = "trail"]
     ELSE IF p.mode = "trail" THEN p
     ELSE IF p.mode = "val" THEN
-        (IF c = 91 THEN [p EXCEPT !.stack = Append(p.stack, "a"), !.mode = "val", !.ac = FALSE, !.sub = "open"]
-         ELSE IF c = 123 THEN [p EXCEPT !.stack = Append(p.stack, "o"), !.mode = "key", !.ac = FALSE, !.sub = "open"]
+        \* a value starts here, enclosed by Len(p.stack) containers (maxd: the deepest such nesting)
+        (LET q == [p EXCEPT !.maxd = IF Len(p.stack) > p.maxd THEN Len(p.stack) ELSE p.maxd] IN
+         IF c = 91 THEN [q EXCEPT !.stack = Append(p.stack, "a"), !.mode = "val", !.ac = FALSE, !.sub = "open"]
+         ELSE IF c = 123 THEN [q EXCEPT !.stack = Append(p.stack, "o"), !.mode = "key", !.ac = FALSE, !.sub = "open"]
          ELSE IF c = 93 /\ (p.ac \/ FALSE) THEN PClose(p, "a")
-         ELSE IF c \in {QUOTE, 39} THEN [p EXCEPT !.sub = "str", !.iskey = FALSE, !.ac = FALSE, !.dec = DecStep(DecInitQ(c, TRUE), c),
+         ELSE IF c \in {QUOTE, 39} THEN [q EXCEPT !.sub = "str", !.iskey = FALSE, !.ac = FALSE, !.dec = DecStep(DecInitQ(c, TRUE), c),
                                                   !.ext = IF c = 39 THEN p.ext \cup {"single_quote"} ELSE p.ext]
          ELSE IF c \in STRUCTC THEN PBad(p)
-         ELSE [p EXCEPT !.sub = "bare", !.bare = <<c>>, !.ac = FALSE])
+         ELSE [q EXCEPT !.sub = "bare", !.bare = <<c>>, !.ac = FALSE])
     ELSE IF p.mode = "key" THEN
         (IF c \in {QUOTE, 39} THEN [p EXCEPT !.sub = "str", !.iskey = TRUE, !.ac = FALSE, !.dec = DecStep(DecInitQ(c, TRUE), c),
                                              !.ext = IF c = 39 THEN p.ext \cup {"single_quote"} ELSE p.ext]
@@ -202,7 +204,7 @@ PStep(p, c) ==
 PEnd(p) == IF p.bad THEN p ELSE IF p.sub = "bare" THEN PEndBare(p) ELSE p
 \* [ok, ext]: valid once the listed extensions are allowed, and the extensions used
 Permissive(text) == LET p == PEnd(FoldLeft(PStep, PInit, text)) IN
-                    [ok |-> ~p.bad /\ p.mode \in {"done", "trail"} /\ p.sub \in {"", "cline"}, ext |-> p.ext]
+                    [ok |-> ~p.bad /\ p.mode \in {"done", "trail"} /\ p.sub \in {"", "cline"}, ext |-> p.ext, maxd |-> p.maxd]
 
 \* the value with every member name cut at its first NUL byte (json-c's C-string keys): only used to
 \* classify a mismatch as the known finding D01a
